@@ -19,7 +19,7 @@ def everything(r, cfg):
 
 
 def main(ctx):
-    C03.main(ctx, selector=everything, label="C05")
+    C03.main(ctx, selector=everything, label="C05", deep_mems=50)       # (the whole catalogue is ~3x C03's: keeps the thorough tier near an hour)
     ctx.ev.rule = ctx.ev.rule + "  (C05: whole catalogue including out-of-bounds, cross-type and unknown-tag requests.)"
 
 
